@@ -107,8 +107,8 @@ static void build_scales(int thorough)
     g_nscales = 0;
     for (unsigned i = 0; i < sizeof special / sizeof special[0]; i++) add_scale(special[i]);
     if (!thorough) {
-        for (int k = 1; k <= 64; k++) add_scale(k * 4096);               /* k/16 up to 4.0 */
-        g_nbits = 5;
+        for (int k = 1; k <= 256; k++) add_scale(k * 2048);              /* k/32 up to 8.0 (superset of DESIGN's k/16 up to 4.0) */
+        g_nbits = 6;
     } else {
         for (int k = 1; k <= 2048; k++) add_scale(k * 256);               /* k/256 up to 8.0 */
         add_scale(0x104000);                                              /* 16.25 */
@@ -354,10 +354,13 @@ static void axis_case(uint64_t idx, void *ctx)
     if (width >= 2) vf_count_nontrivial(1);
     if (!vf_in_confirm) __atomic_add_fetch(&sh->phases, (uint64_t)1 << c.bits, __ATOMIC_RELAXED);
     vf_outcome(vf_hash64(params, (size_t)n * sizeof params[0], 18));
-    if (image_check(params, n, cx, cy, w, h, 0, axis ? "axis-y" : "axis-x") && vf_want_sample()) {
-        vf_sample("axis %c %s -> n_values=%d width=%d phases=%d, phase0 = {%d%s%d%s}, every phase sums to 65536, constant image preserved at all %d phase centres",
-                  "xy"[axis], cfg_str(&c, cb, sizeof cb), n, width, 1 << c.bits, params[axis ? 5 : 4], width > 1 ? "," : "", width > 1 ? params[(axis ? 5 : 4) + 1] : 0,
-                  width > 2 ? ",..." : "", 1 << c.bits);
+    if (image_check(params, n, cx, cy, w, h, 0, axis ? "axis-y" : "axis-x") && idx % 997 == 3 && vf_want_sample()) {
+        const pixman_fixed_t *t0 = params + (axis ? 5 : 4);
+        char taps[120]; size_t l = 0;
+        for (int i = 0; i < width && i < 6; i++) l += snprintf(taps + l, sizeof taps - l, "%s%d", i ? "," : "", t0[i]);
+        if (width > 6) snprintf(taps + l, sizeof taps - l, ",...");
+        vf_sample("axis %c %s -> n_values=%d width=%d phases=%d, phase0 = {%s}, every phase sums to 65536, constant image preserved at all %d phase centres",
+                  "xy"[axis], cfg_str(&c, cb, sizeof cb), n, width, 1 << c.bits, taps, 1 << c.bits);
     }
     blk_free(params);
 }
@@ -454,7 +457,9 @@ static void report_failing_inputs(void)
     int64_t n = sh->n; if (n > FAILCAP) n = FAILCAP;
     if (n == 0) return;
     qsort((void *)sh->r, (size_t)n, sizeof(failrec), cmp_fail);
-    printf("FAILING-INPUTS %s: %lld failing configurations (by key / kernel pair / axis: scale[bits...])\n", vf_prop, (long long)sh->n);
+    int64_t nobs = 0; for (int64_t i = 0; i < n; i++) nobs += sh->r[i].keyid == K_AMPL;
+    printf("INPUT-REPORT %s: %lld configurations recorded: %lld violating, %lld observations (by key / kernel pair / axis: scale[bits...])\n", vf_prop, (long long)sh->n,
+           (long long)(n - nobs), (long long)nobs);
     size_t el = 0; char *ej = vf->extra_json; size_t ecap = sizeof vf->extra_json;
     el += snprintf(ej + el, ecap - el, "\"failing_inputs_total\": %lld, \"failing_inputs\": [", (long long)sh->n);
     int first_json = 1;
@@ -513,7 +518,7 @@ int main(int argc, char **argv)
               "of the enumerated axis with the other axis fixed to the one-tap identity, for each axis, plus a cross grid of x-config x y-config; "
               "non-trivial = the enumerated table has >= 2 taps per phase (normalisation and error diffusion did work); outcome = hash of the whole block";
     vf_bounds = th ? "all 8x8 kernel pairs x subsample bits 0..8 x 2059 scales (k/256 for k=1..2048, eps, 2eps, 1/4-eps, 1-eps, 1+eps, 16.25, 64), each axis; 24x24 cross grid"
-                   : "all 8x8 kernel pairs x subsample bits 0..4 x 71 scales (eps, 2eps, 1/4-eps, 1-eps, 1+eps, 4.5, 8, k/16 for k=1..64), each axis; 12x12 cross grid";
+                   : "all 8x8 kernel pairs x subsample bits 0..5 x 261 scales (eps, 2eps, 1/4-eps, 1-eps, 1+eps, k/32 for k=1..256, i.e. up to 8.0), each axis; 12x12 cross grid";
     vf_assume("writes outside the block are observed by 4096-byte pattern guard zones around the library's allocation (--wrap=malloc) and, beyond those, by AddressSanitizer "
               "(library and harness built with clang -fsanitize=address, recover mode, suppress_equal_pcs=0); a stray write that stores the guard pattern 0xA5 itself would be missed");
     vf_assume("the kernel widths 0,1,2,4,5,4,6,8 used for the support check are the documented ones of pixman-filter.c filters[]");
